@@ -13,5 +13,6 @@ CONSTANTS
   DenyFactories = {"simple_file", "glob_file", "first_file", "foreach_collect", "simple_command", "command_with_args", "foreach_execute", "container_execute", "container_collect"}
   DenyMax = 3
 INVARIANT DenyRespected
+INVARIANT FactoryWritesUnderOut
 CONSTRAINT Emit
 CHECK_DEADLOCK FALSE
